@@ -5,7 +5,7 @@
 From Coq Require Import ZArith List Bool Arith.
 Import ListNotations.
 From OvldV Require Import Model.Order Model.Ty Model.Codec Model.Resolve Spec.Dispatch
-  Proofs.ResolveCands Proofs.ResolveStatic Gen.Leaf Proofs.LeafAgree.
+  Proofs.ResolveCands Proofs.ResolveStatic Proofs.ResolveTotal Gen.Leaf Proofs.LeafAgree.
 
 Definition Refl (sub : nat -> nat -> bool) := forall c, sub c c = true.
 Definition Antisym (sub : nat -> nat -> bool) := forall c d, sub c d = true -> sub d c = true -> c = d.
@@ -47,6 +47,42 @@ Theorem C02_winner_maximal : forall sub hasm chk fresh, Refl sub -> Antisym sub 
     forall m', In m' ms -> applicable sub m' k = true -> m_id m' <> i -> beats sub m' m k = false.
 Proof. exact run_is_unbeaten. Qed.
 Print Assumptions C02_winner_maximal.
+
+(* ... and the side condition "candidates = Ok" (the level computation did not fail) is automatic on the static fragment:
+   typeorder / subclasscheck are total and Kahn's loop never gets stuck when issubclass is a partial order.
+   The three theorems above therefore hold for EVERY class DAG, method list and key, unconditionally: *)
+Definition Trans (sub : nat -> nat -> bool) := forall a b c, sub a b = true -> sub b c = true -> sub a c = true.
+
+Theorem C02_static_total : forall sub hasm chk fresh, Antisym sub -> Trans sub -> forall ms k,
+  static_ms ms = true -> static_key k = true -> exists cs, candidates sub hasm chk fresh ms k = Ok cs.
+Proof. exact candidates_static_ok. Qed.
+Print Assumptions C02_static_total.
+
+Theorem C02_no_internal_error : forall sub hasm chk fresh, Antisym sub -> Trans sub -> forall ms k,
+  static_ms ms = true -> static_key k = true ->
+  lookup sub hasm chk fresh ms k <> OCycle /\ lookup sub hasm chk fresh ms k <> OFuel.
+Proof. exact static_no_internal_error. Qed.
+Print Assumptions C02_no_internal_error.
+
+Theorem C02_winner_complete_unconditional : forall sub hasm chk fresh, Refl sub -> Antisym sub -> Trans sub ->
+  forall ms k i, NoDup (map m_id ms) -> static_ms ms = true -> static_key k = true ->
+  spec_outcome sub ms k = VRun i -> lookup sub hasm chk fresh ms k = ORun i.
+Proof. exact static_winner_complete. Qed.
+Print Assumptions C02_winner_complete_unconditional.
+
+Theorem C02_winner_maximal_unconditional : forall sub hasm chk fresh, Refl sub -> Antisym sub -> Trans sub ->
+  forall ms k i, NoDup (map m_id ms) -> static_ms ms = true -> static_key k = true ->
+  lookup sub hasm chk fresh ms k = ORun i ->
+  exists m, In m ms /\ m_id m = i /\ applicable sub m k = true /\
+    forall m', In m' ms -> applicable sub m' k = true -> m_id m' <> i -> beats sub m' m k = false.
+Proof. exact static_winner_maximal. Qed.
+Print Assumptions C02_winner_maximal_unconditional.
+
+Theorem C02_no_method_unconditional : forall sub hasm chk fresh, Refl sub -> Antisym sub -> Trans sub -> forall ms k,
+  static_ms ms = true -> static_key k = true ->
+  (lookup sub hasm chk fresh ms k = ONoMethod <-> spec_outcome sub ms k = VNoMethod).
+Proof. exact static_nomethod_iff. Qed.
+Print Assumptions C02_no_method_unconditional.
 
 (* FULL STATEMENT (false of the faithful model, C02_exact_refuted): lookup = spec_outcome for every class DAG.
    The three theorems above leave exactly one way to differ: the rule says Ambiguous (no applicable method beats all
